@@ -88,6 +88,7 @@ static _Bool rt_solo;               /* solo turn: the running thread is never pr
 #define RT_YIELD() (!rt_solo && nondet_bool())
 static _Bool rt_block;
 static _Bool rt_blocked[RT_NSLOTS];
+static _Bool rt_sigblocked[RT_NSLOTS];     /* thread has all signals blocked (pthread_sigmask) */
 static _Bool rt_ever_waited[RT_NSLOTS];   /* the thread executed a busy-wait hint or blocked in a primitive at least once */
 static _Bool rt_spun[RT_NSLOTS];      /* last turn ended in a busy-wait hint */
 static _Bool rt_active[RT_NSLOTS];
@@ -311,9 +312,13 @@ static uint32_t P_poll(void *fds, uint64_t n, uint32_t ms) { (void)fds; (void)n;
 static uint32_t P_sched_yield(void) { return 0; }
 static uint32_t P_usleep(uint32_t us) { (void)us; return 0; }
 static uint64_t P_pthread_self(void) { return (uint64_t)rt_cur + 1; }
-static uint32_t P_pthread_sigmask(uint32_t how, void *set, void *old) { (void)how; (void)set; (void)old; return 0; }
-static uint32_t P_sigfillset(void *set) { (void)set; return 0; }
-static uint32_t P_sigemptyset(void *set) { (void)set; return 0; }
+/* the library only ever blocks everything (sigfillset + SIG_BLOCK) and restores the old mask (SIG_SETMASK) */
+static uint32_t P_pthread_sigmask(uint32_t how, void *set, void *old) {
+  if (old) *(uint8_t *)old = rt_sigblocked[rt_cur];
+  if (set) { if (how == 0) rt_sigblocked[rt_cur] = 1; else if (how == 2) rt_sigblocked[rt_cur] = *(uint8_t *)set; else if (how == 1) rt_sigblocked[rt_cur] = 0; }
+  return 0; }
+static uint32_t P_sigfillset(void *set) { *(uint8_t *)set = 1; return 0; }
+static uint32_t P_sigemptyset(void *set) { *(uint8_t *)set = 0; return 0; }
 static uint32_t P_sched_getcpu(void) { return 0; }
 static uint64_t P_sysconf(uint32_t n) { (void)n; return 1; }
 static uint32_t P_getpagesize(void) { return 4096; }
